@@ -117,7 +117,7 @@ def cases(ctx):
     # translation validation: Bcv (the verified bytecode verifier: heights, local / free / constant indices in range, closure
     # free counts) on the real bytecode of the scope skeletons (closures, nested and recursive functions); the VM model runs it
     vsel = [k for k in range(len(srcs)) if tags[k] != "skeleton" or ctx.thorough() or k % 4 == 0]
-    vl = vmrun_lines(ctx, [srcs[k] for k in vsel])
+    vl = vmrun_lines(ctx, [srcs[k] for k in vsel], static=[tags[k] == "generated" for k in vsel])
     out += [Case(l, (tags[k], "vm"), extra={"src": srcs[k]}) for l, k in zip(vl, vsel)]
     # the compiler's use of the symbol table (model P2sh.Resolver) against the real compiler, and the real compiler against
     # the lexical reference (P2sh.Lex): what is emitted for every name of every skeleton / generated program (op `resolve`)
